@@ -116,7 +116,7 @@ let preds : (string * (val0 list -> bool)) list = [
   ("kf_empty_authority", kf_empty_authority);
   ("kf_f17_1", (fun l -> kf_f17_with oracles.o_ip_parse (List.tl l)));
   ("c01_quote_pred", (function [WNat i; WStr s; WStr o] -> c01_quote_pred (nat_of_int (int_of_n i)) s o | _ -> false));
-  ("c16_pred", c16_pred); ("c16_reject_pred", c16_reject_pred); ("c16_nfkc_pred", c16_nfkc_pred);
+  ("c16_pred", c16_pred); ("c16_reject_pred", c16_reject_pred); ("c16_nfkc_pred", c16_nfkc_pred); ("c16_reencode_pred", c16_reencode_pred);
   ("c07_enc_pred", c07_enc_pred oracles);
   ("c07_auto_pred", c07_auto_pred);
   ("c19_oom_pred", c19_oom_pred); ("c11_pred", c11_pred); ("kf_f7_base", kf_f7_base); ("kf_f17_base", (fun l -> kf_f17_with oracles.o_ip_parse [List.nth l 4])); ("c04_url_pred", c04_url_pred); ("kf_f14b", kf_f14b); ("kf_f27", kf_f27);
